@@ -31,7 +31,11 @@ Respond(h, req) ==
   ELSE [reply |-> "INIT_OK", cookie |-> <<>>, dh |-> 2, left |-> 1]                \* normal answer: keygen + shared secret, half-open IKE_SA
 
 HalfOpenCounts == 0..(Threshold + 2)
-Cases == {[h |-> h, req |-> r] : h \in HalfOpenCounts, r \in Request}
+\* the right cookie damaged in length only: cut to its first k octets (k = 0: an empty notification) or extended by one octet - never the cookie itself
+Cut(t, k) == <<"cut", t.spi, t.nonce, t.addr, k>>
+CutLengths == {0, 1, 16, 33}
+CutCases == {[h |-> h, req |-> [t |-> t, cookies |-> <<Cut(t, k)>>]] : h \in HalfOpenCounts, t \in Tuple, k \in CutLengths}
+Cases == {[h |-> h, req |-> r] : h \in HalfOpenCounts, r \in Request} \cup CutCases
 
 \* ------------------------------------------------------------------------------------------- the property, on the operator
 CookieFirst == \A c \in Cases : LET o == Respond(c.h, c.req) IN
